@@ -911,6 +911,13 @@ func (dsc *dataStoreCommand) dump(keyName string) (output respValue) {
 	beLen := make([]byte, 4)
 
 	strBytes := sk.getStringBytes()
+	if strBytes == nil {
+		// a hash, set or list: its serialized elements take the place of the string
+		var err error
+		if strBytes, err = encodeContainerPayload(sk); err != nil {
+			strBytes = nil
+		}
+	}
 	if strBytes != nil {
 		binary.BigEndian.PutUint32(beLen, uint32(len(strBytes))+1)
 	}
@@ -970,10 +977,20 @@ func (dsc *dataStoreCommand) restore(keyName, serializedData string, ttl int64, 
 		serialBytes = content[6 : 6+len-1]
 	}
 
+	var payload any = serialBytes
+	if !flagHasOne(bitflags(content[1]), FLAG_KEY_TYPE_STRING) || len == 0 {
+		// a hash, set or list: rebuild it from its serialized elements
+		var err error
+		if payload, err = decodeContainerPayload(bitflags(content[1]), serialBytes); err != nil {
+			output.data = respErrorString("ERR DUMP payload version or checksum are wrong")
+			return
+		}
+	}
+
 	newSk := dsc.ds.newStoreKeyUnlocked(keyName)
 	newSk.flags = bitflags(content[1])
 	newSk.expiresAt = expiration
-	newSk.payload = serialBytes
+	newSk.payload = payload
 
 	output.data = rstrOK
 	return
